@@ -256,7 +256,13 @@ class StoreRunner:
             if op == 'len':
                 return 'yes', len(ts), None, None
             if op == 'iter':
-                return 'yes', [ident(t, self.big) for t in ts], None, None
+                items = [ident(t, self.big) for t in ts]
+                # Store.tla Iterate: every iteration of a store runs over all of it in insertion order - also two
+                # iterations that overlap (zip(store, store), a nested loop)
+                pairs = [(ident(a, self.big), ident(b, self.big)) for a, b in zip(ts, ts)]
+                if pairs != [(x, x) for x in items]:
+                    return 'yes', {'two overlapping iterations gave the pairs': pairs, 'a single iteration': items}, None, None
+                return 'yes', items, None, None
             if op == 'evict':
                 c = getattr(ts, '_trajectories', None)
                 if c is not None:
